@@ -41,6 +41,17 @@ impl Model {
         let has_writes = self.w[t][0].is_some();
         if ww { 1 } else if self.iso[t] == 2 && rw && has_writes { 2 } else { 0 }
     }
+    /// Region of the recorded open finding `c04_read_only_refused` (KNOWN_FINDINGS.txt): a read-only
+    /// Serializable transaction that read something an overlapping, already committed writer wrote.
+    pub fn in_kf_read_only_region(&self, t: usize, ent: &[EntityId]) -> bool {
+        if self.st[t] != St::Active || self.iso[t] != 2 || self.w[t][0].is_some() { return false; }
+        let mut rw = false; let mut u = 0;
+        while u < NT {
+            if u != t && self.st[u] == St::Committed && self.commit_pos[u] > self.begin_pos[t] && Self::overlap(&self.r[t], &self.w[u], ent) { rw = true; }
+            u += 1;
+        }
+        rw
+    }
 }
 
 pub fn iso_of(k: u8) -> IsolationLevel { match k { 0 => IsolationLevel::ReadCommitted, 1 => IsolationLevel::SnapshotIsolation, _ => IsolationLevel::Serializable } }
@@ -64,6 +75,9 @@ impl<'a> Sim<'a> {
     pub fn r(&mut self, t: usize, e: usize) { let r = self.mgr.record_read(self.ids[t], self.ent[e]); assert!(r.is_ok() == (self.m.st[t] == St::Active)); if self.m.st[t] == St::Active { Model::add(&mut self.m.r[t], e); } std::mem::forget(r); self.pos += 1; }
     pub fn c(&mut self, t: usize) {
         let want = self.m.spec_commit(t, self.ent);
+        // open known finding carved out of the main harnesses (the witness harness pins it)
+        #[cfg(feature = "kf_c04_read_only_refused")]
+        kani::assume(!self.m.in_kf_read_only_region(t, self.ent));
         let r = self.mgr.commit(self.ids[t]);
         let got = classify(&r);
         assert!(got == want, "commit outcome differs from the first-committer-wins / SSI specification");
@@ -81,8 +95,8 @@ impl<'a> Sim<'a> {
     pub fn g(&mut self) { let _ = self.mgr.gc(); self.pos += 1; }
 }
 
-pub fn any_entity() -> EntityId {
-    let id: u64 = kani::any();
-    if kani::any() { EntityId::Node(NodeId::new(id)) } else { EntityId::Edge(EdgeId::new(id)) }
-}
+/// entity of a concrete kind with a symbolic id (a symbolic *kind* makes symex of the set
+/// look-ups explode: measured > 15 min vs 16 s)
+pub fn any_node() -> EntityId { EntityId::Node(NodeId::new(kani::any())) }
+pub fn any_edge() -> EntityId { EntityId::Edge(EdgeId::new(kani::any())) }
 pub fn any_iso() -> u8 { let k: u8 = kani::any(); kani::assume(k < 3); k }
